@@ -294,6 +294,10 @@ def shipped_stream(chk, n_per_gene, budget_s):
     rng = chk.rng
     names = sorted(i[:-4] for i in pkg_resources.resource_listdir("aldy.resources", "genes") if i.endswith(".yml"))
     rng.shuffle(names)
+    # genes in which the two builds give some catalogued variant site a different region label come first (only an ordering hint,
+    # observed on the shipped resources; what is planted is decided by divergent_keys() at run time)
+    first = [n for n in ("ugt1a1", "slco1b1", "nudt15", "cyp3a7", "cyp2c19", "cyp3a4", "nat2", "cyp2d6") if n in names]
+    names = first[:4] + [n for n in names if n not in first[:4]]
     t0 = time.time()
     hyp_terms, hyp_py, hyp_genes = [], [], []
     for n in names:
@@ -316,8 +320,21 @@ def shipped_stream(chk, n_per_gene, budget_s):
         site_key_a = lambda pos, g=ga: g.chr_to_ref.get(pos)
         site_key_b = lambda pos, g=gb: g.chr_to_ref.get(pos)
         big = len(ga.alleles) > 150
-        for k in range(1 if big else n_per_gene):
+        div = divergent_keys(ga, gb)
+        bothk = {(v[3], v[4]): m for m, v in ga.mutations.items()}
+        from aldy.gene import Mutation as _Mut
+        div_sub = sorted([k for k in div if k in bothk and ">" in k[1] and len(k[1]) == 3],
+                         key=lambda k: (not ga.is_functional(_Mut(*bothk[k])), str(k)))
+        forced = div_sub[:2] if not big else div_sub[:1]
+        for k in range((1 if big else n_per_gene) + len(forced)):
             plan = plant(rng, ga, gb)
+            if k < len(forced) and plan["copies"]:
+                # a catalogued substitution at a site the two builds label differently, novel to copy 0 (function-altering ones first)
+                a0, mi0 = plan["copies"][0]
+                have = {(m.pos, m.op) for m in set(ga.alleles[a0].func_muts) | set(ga.alleles[a0].minors[mi0].neutral_muts)}
+                if bothk[forced[k]] not in have and bothk[forced[k]][0] not in {p for p, _ in have}:
+                    plan["extra"] = [[0, forced[k][0], forced[k][1]]]
+                    plan["noise"] = 0.0
             ta, rca = table_for(ga, plan, site_key_a)
             tb, rcb = table_for(gb, plan, site_key_b)
             ra = run_stages(ga, make_coverage(ga, ta, rca))
